@@ -14,16 +14,25 @@ git checkout -q -- . 2>/dev/null
 echo "== confirm $SID ($PROP) in $WT"
 git apply --check "$S/patch.diff" || { echo "RESULT patch does not apply"; exit 1; }
 git apply "$S/patch.diff"
-cargo build --offline -p bindgen-cli 2>&1 | tail -1
-bash "$S/demo.sh" > "$S/demo.with.log" 2>&1; DW=$?
+rm -f target/.rustc_info.json; cargo build --offline -p bindgen-cli < /dev/null 2>&1 | tail -1
+rm -f target/.rustc_info.json
+bash "$S/demo.sh" < /dev/null > "$S/demo.with.log" 2>&1; DW=$?
 echo "demo with change: exit $DW"
+rm -f target/.rustc_info.json   # a demo that pipes into cargo can leave a failed rustc probe cached
 cargo nextest run --workspace --no-fail-fast --tool-config-file pb:/w/lib/nextest.toml --profile pb --test-threads 6 --offline < /dev/null > "$S/nextest.confirm.log" 2>&1
+if ! grep -q "Summary" "$S/nextest.confirm.log"; then
+  # cargo's rustc probe occasionally reads garbage from an inherited descriptor; the failure is cached.  Forget it and try once more.
+  rm -f target/.rustc_info.json
+  cargo metadata --format-version=1 --offline < /dev/null > /dev/null 2>&1
+  cargo nextest run --workspace --no-fail-fast --tool-config-file pb:/w/lib/nextest.toml --profile pb --test-threads 6 --offline < /dev/null > "$S/nextest.confirm.log" 2>&1
+fi
 SUMMARY=$(grep -E "Summary" "$S/nextest.confirm.log" | tail -1)
 FAILS=$(grep -E "^\s+FAIL" "$S/nextest.confirm.log" | awk '{print $NF}' | sort -u | tr '\n' ' ')
 echo "suite with change: $SUMMARY | failing: $FAILS"
 git checkout -q -- .
-cargo build --offline -p bindgen-cli 2>&1 | tail -1
-bash "$S/demo.sh" > "$S/demo.without.log" 2>&1; DO=$?
+rm -f target/.rustc_info.json; cargo build --offline -p bindgen-cli < /dev/null 2>&1 | tail -1
+rm -f target/.rustc_info.json
+bash "$S/demo.sh" < /dev/null > "$S/demo.without.log" 2>&1; DO=$?
 echo "demo without change: exit $DO"
 OK=no
 if [ $DW -ne 0 ] && [ $DO -eq 0 ] && echo "$SUMMARY" | grep -q "690 passed, 3 failed" && [ "$FAILS" = "header_atomic_constant_h header_issue_753_h header_ptr32_has_different_size_h " ]; then OK=yes; fi
